@@ -154,7 +154,7 @@ pub fn cases(ctx: &Ctx) -> Vec<WCase> {
     }
     // ---- random burst outages
     let mut r = Rng::new(ctx.seed ^ 0xC05);
-    for i in 0..ctx.n(3000, 120_000) {
+    for i in 0..ctx.n(6000, 300_000) {
         let mut rr = r.fork(i as u64);
         let topo = rr.below(5) as usize;
         let mut s = base_cfg(topo.min(2), rr.range(0, 8) as usize, rr.below(5) as usize, rr.chance(0.4), rr.next());
